@@ -38,11 +38,11 @@ def mc(engine, technique, text, note, design):
 
 CHECKS["C06"] = mc("E1-choice-tree",
   "stateless model checking over the environment: exhaustive DFS over every word the supplied RNG can hand out (finite exact alphabet), real selectors executed on every sequence, membership/error oracle per leaf",
-  "Every selector configuration (Best, Worst, Random, Tournament 1..n+1, Lexicase with 0..3 cases on 2 available results, lone Weighted, WeightedPair nestings of 2..4 real selectors, DynWeighted lists; direct, behind &, through Select, type-erased) x every population of size 0..3 (thorough 0..4) over 3 values x every word sequence of a mixed Grid(12)+Rep(12!,24) alphabet: the result must be pointer-identical to an element of the population passed, or one of the errors the configuration documents; never a panic. Plus Lexicase(0..3), direct and erased, on every ragged population (1..3, thorough 4, individuals each with their own 0..3 results): a member, or MissingTestCase only if the case count exceeds some individual's result count.",
+  "Every selector configuration (Best, Worst, Random, Tournament 1..n+1, Lexicase with 0..3 cases on 2 available results, lone Weighted, WeightedPair nestings of 2..4 real selectors, DynWeighted lists; direct, behind &, through Select, type-erased) x every population of size 0..3 (thorough 0..4) over 3 values x every word sequence of a mixed Grid(12)+Rep(12!,24) alphabet: the result must be pointer-identical to an element of the population passed, or one of the errors the configuration documents; never a panic. Plus Lexicase(0..3), direct and erased, on every ragged population (1..3, thorough 4, individuals each with their own 0..3 results): a member, or MissingTestCase only if the case count exceeds some individual's result count - and MissingTestCase only, when every ordering of the cases meets a result that a live candidate lacks. Plus large populations (every size 8..70, around 128, 163, 256, 512, 1024, and 1100, 2003, 4097; ten structured populations): Best, Worst, Random, Lexicase and tournaments of 24 sizes up to n+1 on every stream with at most one non-default word: a member or the documented tournament-size error.",
   "Trusted: the mixed alphabet reaches every decision of rand's range draws (range | 12) and every permutation of <= 4 shuffled items; rejection-sampling tails beyond the exploration horizon are cut and counted.", "4/C06")
 CHECKS["C07"] = mc("E1-choice-tree",
   "stateless model checking over the environment with exact probability laws: all word sequences of Grid(lcm(1..n)) explored on the real Tournament/Best/Worst, leaf weights accumulated as rationals and compared with the combinatorial law",
-  "Best/Worst on every population of size 1..6 over 3 values; Tournament(k) for every population of size n<=4 and n=5 with k<=3 (thorough also n=6, k<=2) over 3 values with ties, every ordering of n<=5 distinct values, and a 9-member population family for the larger (n, k) up to n=7 within an execution budget: the winner-value law must equal [C(#<=v,k)-C(#<v,k)]/C(n,k) exactly, size-1 tournaments are uniform over positions, size-n tournaments return a maximum.",
+  "Best/Worst on every population of size 1..6 over 3 values; Tournament(k) for every population of size n<=4 and n=5 with k<=3 (thorough also n=6, k<=2) over 3 values with ties, every ordering of n<=5 distinct values, and a 9-member population family for the larger (n, k) up to n=7 within an execution budget: the winner-value law must equal [C(#<=v,k)-C(#<v,k)]/C(n,k) exactly, size-1 tournaments are uniform over positions, size-n tournaments return a maximum. Binary tournaments with the exact law up to 24 (48) individuals on the grid n(n-1). Large populations (every size 8..70, around 128, 163, 256, 512, 1024, and 1100, 2003, 4097): Best/Worst extremal, the exact uniform law of the size-1 tournament, and for 24 tournament sizes up to n on every stream with at most one non-default word: the winner is at least as good as k-1 other members, and at least k distinct individuals were compared (individuals whose comparisons are recorded).",
   "Trusted: rand 0.9 samplers as characterised by the calibration run at start-up (exit 2 if it fails); ties are compared on value classes.", "4/C07")
 CHECKS["C08"] = mc("E1-choice-tree",
   "stateless model checking over the environment on the Rep(12!,K) alphabet (rand's shuffle consumes one number below 12! modulo s!), exact per-individual law against enumeration of all case orders",
@@ -54,11 +54,11 @@ CHECKS["C09"] = mc("E3-fault-product on real rayon (tier A) + E4 rayon model (ti
   "Real-rayon interleavings are not enumerated by tier A (evidence says exhaustive=false for that dimension); two honest 64-bit draws collide with probability < 2^-58.", "4/C09")
 CHECKS["C10"] = mc("E1-choice-tree + E3-bounded-exhaustive",
   "stateless model checking over the RNG (all grid word sequences) on tagged parents, plus exhaustive enumeration of all index/range arguments of the exchange primitives",
-  "TwoPointXo and UniformXo in 6 flavours x all length pairs 0..5 (thorough 0..8): error iff lengths differ; child gene i comes from a parent's position i; two-point: one contiguous segment and every segment [a,b) including those touching either end occurs over all streams, empty parents give an empty child; uniform: every mask has probability exactly 2^-l (concluded only when the draws are one 32-bit word per gene; otherwise support only). Per-leaf oracle also on every stream over the grid plus the extreme words 0 and all-ones (lengths <= 4). Long genomes (63..129, thorough 31..257): two-point with both cut points enumerated, uniform under every stream with at most 1 (2) non-default words over an alphabet with alternating bit-block words: every position from either parent, every pair of positions from different parents, every segment. crossover_gene / crossover_segment for all indices and ranges up to length+2 on all length pairs 0..4: in range => exactly the addressed genes swapped, out of range => Err and both genomes unchanged, never a panic.",
+  "TwoPointXo and UniformXo in 6 flavours x all length pairs 0..5 (thorough 0..8): error iff lengths differ; child gene i comes from a parent's position i; two-point: one contiguous segment and every segment [a,b) including those touching either end occurs over all streams, empty parents give an empty child; uniform: every mask has probability exactly 2^-l (concluded only when the draws are one 32-bit word per gene; otherwise support only). Per-leaf oracle also on every stream over the grid plus the extreme words 0 and all-ones (lengths <= 4). Long genomes (63..129, thorough 31..257): two-point with both cut points enumerated, uniform under every stream with at most 1 (2) non-default words over an alphabet with alternating bit-block words: every position from either parent, every pair of positions from different parents, every segment. crossover_gene / crossover_segment for all indices and ranges up to length+2 on all length pairs 0..4, and on long bitstrings of equal and different sizes (1200..2100, thorough ..70001) for every segment length 0..=1100 from six start positions: in range => exactly the addressed genes swapped, out of range => Err and both genomes unchanged, never a panic.",
   "Trusted: Grid(l(l+1)) is exact for cut points drawn from 0..l and from 0..=l.", "4/C10")
 CHECKS["C11"] = mc("E1-choice-tree",
   "stateless model checking over the RNG: all grid word sequences, structural oracle on every leaf",
-  "WithRate / WithOneOverLength on position-tagged bits (Vec, Vector, Bitstring, through Mutate) and Umad (new / new_with_empty_rate / new_without_empty) on tagged Vector, Plushy and Bitstring genomes with a numbering gene generator, parent lengths 0..3 (thorough 0..4), lattice rates incl. 0, 1 and 2: positions preserved, survivors in order, at most one insertion per parent position, provenance of new genes, all boundary-rate identities (incl. 1/length on one gene); the same on every stream over the grid plus the extreme words 0 and all-ones (flips <= 3, UMAD <= 2 genes); UMAD on long parents (64..257, thorough 31..300) under every stream with at most 1 (2) non-default words: structure per leaf, every position kept and deleted, an insertion after every position.",
+  "WithRate / WithOneOverLength on position-tagged bits (Vec, Vector, Bitstring, through Mutate) and Umad (new / new_with_empty_rate / new_without_empty) on tagged Vector, Plushy and Bitstring genomes with a numbering gene generator, parent lengths 0..3 (thorough 0..4), lattice rates incl. 0, 1 and 2: positions preserved, survivors in order, at most one insertion per parent position, provenance of new genes, all boundary-rate identities (incl. 1/length on one gene); the same on every stream over the grid plus the extreme words 0 and all-ones (flips <= 3, UMAD <= 2 genes); UMAD on long parents (64..257, thorough 31..300) under every stream with at most 1 (2) non-default words: structure per leaf, every position kept and deleted, an insertion after every position; one Umad::new_with_empty_rate value applied to an empty and a non-empty parent (1, 2, 37 genes) in either order for all lattice rates of its three parameters, both outputs judged.",
   "Structure is rate independent; the lattice reaches both outcomes of every coin.", "4/C11")
 CHECKS["C12"] = mc("E1-choice-tree",
   "stateless model checking over the RNG with exact probability laws (rationals) on lattice rates",
@@ -74,11 +74,11 @@ CHECKS["C14"] = mc("E3-bounded-exhaustive x fault plans",
   "Error paths are compared through the derived Debug of ThenError/AndError/MapError.", "4/C14")
 CHECKS["C15"] = mc("E3-bounded-exhaustive",
   "small-scope exhaustive algebra: all pairs/triples over a boundary value domain, all short result vectors",
-  "All pairs and triples over {i64::MIN,-2,-1,0,1,2,i64::MAX} for Score/Error/TestResult (all six operators, cmp, partial_cmp, max/min, transitivity, antisymmetry, score-vs-error incomparability), all result vectors of length 0..3 over -2..2 plus all vectors of length 4 over {-1,0,1}, extremes and long vectors (255..300 elements) through both constructors and polarities, all pairs of those for TestResults/EcIndividual, and 5 scorers x 3 genome sources for IndividualGenerator/with_scorer/GenomeScorer.",
+  "All pairs and triples over {i64::MIN,-2,-1,0,1,2,i64::MAX} for Score/Error/TestResult (all six operators, cmp, partial_cmp, max/min, transitivity, antisymmetry, score-vs-error incomparability), all result vectors of length 0..3 over -2..2 plus all vectors of length 4 over {-1,0,1}, extremes and long vectors (255..300 elements) through both constructors and polarities, all pairs of those for TestResults/EcIndividual, and 5 scorers x 3 genome sources for IndividualGenerator/with_scorer/GenomeScorer. Float results (Score<f64>, Error<f64>): for every length 0..70 and around 128..4096, 1000, 1499, 2000, 10000, 65536, 70001 and four value patterns whose rounding depends on the order, the total equals the left-to-right sum bit for bit and the per-case results are kept; long integer totals of the same lengths.",
   "Value types with unlawful Ord are outside the property.", "4/C15")
 CHECKS["C16"] = mc("E1-choice-tree (replay obligation)",
   "stateless model checking: every explored leaf of every scenario is replayed from its recorded choice sequence and must reproduce observation and draw trace; process-level digest comparison; all input declaration orders",
-  "~500 (thorough ~900) scenarios taken from the selector, weighted, crossover, mutation and generator checks: each leaf replayed twice; scenarios whose specification is random must show >= 2 outcomes over the supplied generator's streams; history independence on shared operator values; observation digests equal across three processes; Push programs over 4 inputs under all 24 declaration orders end in equal states.",
+  "~500 (thorough ~900) scenarios taken from the selector, weighted, crossover, mutation and generator checks: each leaf replayed twice; scenarios whose specification is random must show >= 2 outcomes over the supplied generator's streams; history independence on shared operator values; observation digests equal across three processes; Push programs over 4 inputs (three families of names: plain; differing only in case, a trailing space or by prefix; composed and decomposed accents) under all 24 declaration orders, each built twice, end in equal states, and a one-variable program ends with that input's value.",
   "'All seeds' is covered as all word sequences of the scenario's alphabet, capped at 20,000 leaves per scenario (reported).", "4/C16")
 CHECKS["C17"] = mc("E3 x E1 (own harness crate) + rustc compile probe fallback",
   "exhaustive enumeration of all 140 generated wrapper types x implementations x arguments x grid word sequences, leaf-by-leaf replay of the concrete operator against the erased form",
@@ -86,7 +86,7 @@ CHECKS["C17"] = mc("E3 x E1 (own harness crate) + rustc compile probe fallback",
   "Trusted: rustc for the fallback probe.", "4/C17")
 CHECKS["C18"] = mc("E1-choice-tree",
   "stateless model checking over the RNG with exact laws",
-  "All 16 conversion flavours (Vec/&Vec/array/&array/slice, into/to, OneOfCloning/Choose/ChooseCloning, constructors, uniform_distribution_of!) x source sizes 0..5 (6) x all 60 grid words (vector/slice flavours also 7..257 (1000) members on the grid of their own size; membership also on every stream over the extreme words): empty source rejected at construction, num_choices == len, each member exactly 1/len (borrowing flavours: a reference into the source); collection generators for Vec, Bitstring, Plushy and scored populations produce exactly size elements in generation order (sizes 0..5 and around powers of two up to 257 (4096); nested collections 0..3 x 0..3).",
+  "All 16 conversion flavours (Vec/&Vec/array/&array/slice, into/to, OneOfCloning/Choose/ChooseCloning, constructors, uniform_distribution_of!) x source sizes 0..5 (6) x all 60 grid words (vector/slice flavours also 7..257 (1000) members on the grid of their own size; membership also on every stream over the extreme words): empty source rejected at construction, num_choices == len, each member exactly 1/len (borrowing flavours: a reference into the source); collection generators for Vec, Bitstring, Plushy and scored populations produce exactly size elements in generation order (sizes 0..5 and around powers of two up to 257 (4096); nested collections 0..3 x 0..3). Sources with more members than a u32 counts: zero-sized members for 2^32-1 .. usize::MAX (construction, member count, one sample) and 2^32 / 2^32+2 one-byte members with the exact value law on the grid of two cells (4 GiB of lazily zeroed memory; skipped with a note if the allocation is refused).",
   "Trusted: calibrated Uniform / slice::Choose.", "4/C18")
 CHECKS["C19"] = mc("E5 type-state BFS + rustc, E3 run-time content (scripts/c19.py)",
   "explicit-state BFS over the builder type-state automaton (model) with every transition replayed against the implementation as judged by rustc (conformance), plus compiled execution of every complete call order up to a bound against the model",
